@@ -1404,5 +1404,16 @@ impl Drop for Arena {
   }
 }
 
+#[cfg(feature = "verif")]
+impl Arena {
+  /// Bounded raw walk over the free list (verification only).
+  pub fn verif_freelist(&self, max: usize) -> crate::verif::FreelistSnapshot {
+    let sentinel = *self.header().sentinel.as_inner_ref();
+    crate::verif::walk_freelist(sentinel, self.cap, max, |off| {
+      *self.get_segment_node(off).as_inner_ref()
+    })
+  }
+}
+
 #[cfg(test)]
 mod tests;
